@@ -568,6 +568,18 @@ def _r_c(t):
     return 0.2 * np.sin(t) ** 2
 
 
+def _f_g(t, g):
+    return 1.0 + 0.5 * g * np.sin(3 * t)
+
+
+def _r_a_g(t, g):
+    return 0.5 * np.cos(2 * t) - 0.3 * g * np.sin(3 * t)
+
+
+def _r_c_g(t, g):
+    return 0.2 * np.sin(t) ** 2 + 0.1 * g * np.cos(2 * t)
+
+
 def _f_w(t, W):
     return 0.5 + 0.3 * np.tanh(W(t)[0])
 
@@ -622,6 +634,12 @@ def gen_problem(rng, kind):
         spec["tlist"] = [i * stepn * dt for i in range(n)]
         spec["meas"] = rng.choice(["", "start", "end", "middle"])
         spec["extra_c"] = kind == "sme" and rng.random() < 0.4
+    # coefficients that depend on `args` (value at construction: garg)
+    spec["garg"] = None
+    if rng.random() < (0.7 if kind == "nm" else 0.4):
+        spec["garg"] = rng.choice([0.0, 0.5, 1.5])
+        if kind == "mc" and spec["method"] == "diag":
+            spec["method"] = "adams"
     # coefficients fed by the trajectory itself (the feedback mechanisms each
     # solver offers): per-trajectory objects that a per-solver cache must not keep
     spec["fb"] = []
@@ -637,6 +655,8 @@ def gen_problem(rng, kind):
                 pool += [("c", "wiener"), ("c", "wiener"), ("c", "state"), ("c", "expect")]
         spec["fb"] = [list(x) for x in rng.sample(pool, rng.choice([1, 1, 2]))]
         spec["fb"] = [list(x) for x in sorted(set(tuple(x) for x in spec["fb"]))]
+        spec["fb"] = [x for i, x in enumerate(spec["fb"])       # one feedback per place
+                      if x[0] not in [y[0] for y in spec["fb"][:i]]]
         if kind == "mc" and spec["method"] == "diag":
             spec["method"] = "adams"
         if kind in ("sse", "sme") and spec["method"] == "rouchon" and \
@@ -662,7 +682,12 @@ def build(spec, **over):
     else:
         psi = (qt.basis(N, 0) + qt.basis(N, N - 1)).unit()
     e_ops = [a.dag() * a, a + a.dag()][:spec["eops"]]
+    if over.get("eops_alt"):
+        e_ops = [a * a.dag(), a + a.dag()]
     kind = spec["kind"]
+    garg = over.get("g", spec.get("garg"))
+    if garg is not None and kind != "nm":
+        H = H + qt.QobjEvo([0.25 * (a + a.dag()), _f_g], args={"g": garg})
     cls = {"mc": qt.MCSolver, "nm": qt.NonMarkovianMCSolver, "sse": qt.SSESolver,
            "sme": qt.SMESolver}[kind]
     extra_c = [0.3 * a.dag()] if spec.get("extra_c") else []
@@ -678,7 +703,7 @@ def build(spec, **over):
     for where, k in spec.get("fb", []):
         f, args = fb_coeff(k)
         if where == "H":
-            H = qt.QobjEvo([H, [0.25 * (a + a.dag()), f]], args=args)
+            H = H + qt.QobjEvo([0.25 * (a + a.dag()), f], args=args)
         elif where == "sc" or (where == "c" and kind == "mc"):
             ops[0] = qt.QobjEvo([ops[0], f], args=args)
         else:
@@ -689,6 +714,7 @@ def build(spec, **over):
     else:
         base["dt"] = 2.0 ** (-spec["dtexp"])
         base["store_measurement"] = spec["meas"]
+    base.update(over.get("opts") or {})
 
     def mk(extra=None):
         opt = dict(base)
@@ -696,13 +722,17 @@ def build(spec, **over):
         if kind == "mc":
             return qt.MCSolver(H, ops, options=opt)
         if kind == "nm":
-            rates = [qt.coefficient(_r_a), 0.3, qt.coefficient(_r_c)]
+            if garg is None:
+                rates = [qt.coefficient(_r_a), 0.3, qt.coefficient(_r_c)]
+            else:
+                rates = [qt.coefficient(_r_a_g, args={"g": garg}), 0.3,
+                         qt.coefficient(_r_c_g, args={"g": garg})]
             oar = [(pool[i], rates[i]) for i in spec["cops"]]
             return qt.NonMarkovianMCSolver(H, oar, options=opt)
         if kind == "sse":
             return qt.SSESolver(H, ops, heterodyne=spec["het"], options=opt)
         return qt.SMESolver(H, ops, heterodyne=spec["het"], c_ops=extra_c, options=opt)
-    return mk, psi, list(spec["tlist"]), e_ops
+    return mk, psi, list(over.get("tlist") or spec["tlist"]), e_ops
 
 
 def fp_traj(tr, collapse=None):
@@ -733,15 +763,30 @@ def diff_fp(a, b):
 
 
 class Problem:
-    def __init__(self, spec):
-        self.spec = spec
-        self.mk, self.psi, self.tlist, self.e_ops = build(spec)
+    def __init__(self, spec, **over):
+        self.base_spec = spec
+        self.over = over
+        self.spec = dict(spec, _over=over) if over else spec
+        self.mk, self.psi, self.tlist, self.e_ops = build(spec, **over)
         self._ref = {}
+        self._variants = {}
 
-    def run(self, solver, ntraj, seeds, state=None, tlist=None, e_ops="default"):
+    def variant(self, **over):
+        """the same problem constructed directly with other args / tlist / e_ops /
+        options: the reference for runs that change those on a used solver"""
+        key = json.dumps(over, sort_keys=True, default=str)
+        if key not in self._variants:
+            self._variants[key] = Problem(self.base_spec, **over)
+        return self._variants[key]
+
+    def run(self, solver, ntraj, seeds, state=None, tlist=None, e_ops="default", args=None):
+        kw = {} if args is None else {"args": args}
         return solver.run(self.psi if state is None else state,
                           self.tlist if tlist is None else tlist, ntraj=ntraj,
-                          e_ops=self.e_ops if e_ops == "default" else e_ops, seeds=seeds)
+                          e_ops=self.e_ops if e_ops == "default" else e_ops, seeds=seeds, **kw)
+
+    def refs_ok(self, seeds):
+        return not any(isinstance(self.ref(s), tuple) for s in seeds)
 
     def ref(self, seed):
         """traj(problem, seed): a fresh solver computing this single seed"""
@@ -803,6 +848,13 @@ class Oracle:
                 break
         return ok
 
+    def matches(self, P, res):
+        """silent version of compare"""
+        if len(res.trajectories) != len(res.seeds):
+            return False
+        return all(diff_fp(f, P.ref(res.seeds[k])) is None
+                   for k, (i, f) in enumerate(res_fps(res)))
+
     # ---------------------------------------------------------------- variants
     def v_base(self, P):
         from numpy.random import SeedSequence
@@ -839,6 +891,92 @@ class Oracle:
         ids = [_sid(s) for s in res0.seeds]
         self.compare(P, r1, "same-solver-first-run", ids)
         self.compare(P, r2, "same-solver-second-run", ids)
+
+    def v_args(self, P, res0):
+        """runs that pass args= (changed, repeated, kept, changed back) on ONE
+        solver object; reference: a fresh solver constructed with those args"""
+        spec = P.base_spec
+        g0 = spec["garg"]
+        g1 = self.rng.choice([g for g in (0.0, 0.5, 1.5, 2.0) if g != g0])
+        P1 = P.variant(g=g1)
+        n, seed = spec["ntraj"], spec["seed"]
+        if not (P1.refs_ok(res0.seeds) and P.refs_ok(res0.seeds)):
+            return
+        ids = [_sid(s) for s in res0.seeds]
+        extra = {"g_construction": g0, "g_run": g1}
+        solver = P.mk({"keep_runs_results": True})
+        if self.rng.random() < 0.5:
+            P.run(solver, 2, 77)                      # some use with the old args first
+        try:
+            r = P.run(solver, n, seed, args={"g": g1})
+        except AttributeError as e:
+            if spec["kind"] in ("sse", "sme") and "'system'" in str(e):
+                # StochasticSolver.run(args=...) cannot be used at all: SIntegrator has
+                # no `system` for Integrator.arguments (not a C13 matter: it fails
+                # for every seed and history); recorded, see report
+                self.dist["sde-run-args-raises"] = self.dist.get("sde-run-args-raises", 0) + 1
+                return
+            raise
+        self.compare(P1, r, "args-changed-in-run", ids, extra)
+        r = P.run(solver, n, seed, args={"g": g1})
+        self.compare(P1, r, "args-repeated-in-run", ids, extra)
+        r = P.run(solver, n, seed)
+        self.compare(P1, r, "args-kept-from-previous-run", ids, extra)
+        r = P.run(solver, n, seed, args={"g": g0})
+        self.compare(P, r, "args-changed-back", ids, extra)
+
+    def v_reconf(self, P, res0):
+        """changed tlist / t0 / e_ops / options between runs on ONE solver object;
+        reference: a fresh solver constructed directly with them"""
+        spec = P.base_spec
+        kind = spec["kind"]
+        n, seed = spec["ntraj"], spec["seed"]
+        ids = [_sid(s) for s in res0.seeds]
+        if kind in ("mc", "nm"):
+            t0 = self.rng.choice([0.0, 0.25])
+            tl = [t0 + 0.25 * i * self.rng.choice([1, 2]) for i in range(4)]
+            optpool = [{"norm_tol": 1e-3}, {"norm_t_tol": 1e-5}]
+            if spec["method"] in ("adams", "bdf", "lsoda", "dop853", "vern7", "vern9"):
+                optpool.append({"atol": 1e-7})
+        else:
+            dt = 2.0 ** (-spec["dtexp"])
+            t0 = self.rng.choice([0.0, 4 * dt])
+            st = self.rng.choice([2, 4])
+            tl = [t0 + i * st * dt for i in range(4)]
+            optpool = [{"store_measurement": m} for m in ("", "start", "end") if m != spec["meas"]]
+        tl = [float(x) for x in tl]
+        P2 = P.variant(tlist=tl, eops_alt=True)
+        opts = self.rng.choice(optpool)
+        P3 = P.variant(opts=opts)
+        if not (P2.refs_ok(res0.seeds) and P3.refs_ok(res0.seeds) and P.refs_ok(res0.seeds)):
+            return
+        solver = P.mk({"keep_runs_results": True})
+        extra = {"tlist": tl, "opts": opts}
+        r = P.run(solver, n, seed)
+        self.compare(P, r, "reconf-first-run", ids, extra)
+        r = P2.run(solver, n, seed)
+        self.compare(P2, r, "reconf-other-tlist-and-e_ops", ids, extra)
+        old = {k: solver.options[k] for k in opts}
+        for k, v in opts.items():
+            solver.options[k] = v
+        r = P.run(solver, n, seed)
+        if kind in ("mc", "nm") and "atol" in opts and not self.matches(P3, r) \
+                and self.matches(P, r):
+            # the run is exactly what the OLD option value gives: the new value
+            # never reached the ODE integrator wrapped by MCIntegrator
+            self.nruns += 1
+            self.ctx.violation(
+                "mcsolve.MCIntegrator.options", "ode-option-set-after-construction-ignored",
+                "an ODE option (atol) set on a constructed MCSolver / NonMarkovianMCSolver "
+                "is not passed to the wrapped ODE integrator: run(seed) differs from a fresh "
+                "solver constructed with that option and equals the run with the old value",
+                {"spec": P.spec, "variant": "reconf-option-changed", "opts": opts})
+        else:
+            self.compare(P3, r, "reconf-option-changed", ids, extra)
+        for k, v in old.items():
+            solver.options[k] = v
+        r = P.run(solver, n, seed)
+        self.compare(P, r, "reconf-option-restored", ids, extra)
 
     def v_sub(self, P, res0):
         k = self.rng.randint(1, P.spec["ntraj"])
@@ -1176,13 +1314,17 @@ class Oracle:
                 self.ctx.count_case(("oracle-error", json.dumps(spec, sort_keys=True)), nontrivial=False)
                 return
             allv = ["parallel", "permuted", "rerun", "sub", "scripted", "nokeep", "feedback",
-                    "history", "globals", "draws"]
+                    "history", "globals", "draws", "reconf"]
+            if spec.get("garg") is not None:
+                allv.append("args")
             if spec["kind"] == "mc" and not spec["improved"]:
                 allv.append("mixed")
             if variants is None:
                 variants = allv if not self.ctx.quick else self.rng.sample(allv, 4)
                 if spec.get("fb"):
                     variants = list(dict.fromkeys(["permuted", "rerun", "parallel"] + list(variants)))
+                if spec.get("garg") is not None:
+                    variants = list(dict.fromkeys(["args"] + list(variants)))
             self.dist["fb/" + "+".join("%s:%s" % tuple(x) for x in spec.get("fb", [])) or "fb/none"] = \
                 self.dist.get("fb/" + "+".join("%s:%s" % tuple(x) for x in spec.get("fb", [])) or "fb/none", 0) + 1
             for v in variants:
@@ -1363,7 +1505,7 @@ def run(ctx):
         orc.one_problem(spec)
     kinds = ["mc", "sse", "sme", "nm", "mc", "sme"]
     nprob = 0
-    while time.time() - t0 < budget and nprob < (160 if ctx.quick else 2500):
+    while time.time() - t0 < budget and nprob < (140 if ctx.quick else 2500):
         spec = gen_problem(orc.rng, kinds[nprob % len(kinds)])
         orc.one_problem(spec)
         nprob += 1
@@ -1407,12 +1549,18 @@ def replay(ctx, payload):
             ctx.violation(payload["site"], payload["signature"], payload["what"], d)
         return
     if "spec" in d:
+        d = dict(d, spec={k: v for k, v in d["spec"].items() if k != "_over"})
         orc = Oracle(ctx, random.Random(payload.get("seed", 0) * 7 + 1313))
         v = d.get("variant", "history").split("/")[0]
         name = {"parallel_map": "parallel", "permuted-list": "permuted", "sub-ensemble": "sub",
                 "scripted-map": "scripted", "no-keep": "nokeep", "seeds-fed-back": "feedback",
                 "seeds-none": "feedback", "global-rng": "globals", "draw-order": "draws",
-                "wrapped-generator": "draws", "generator": "draws"}.get(v, v)
+                "wrapped-generator": "draws", "generator": "draws",
+                "same-solver-first-run": "rerun", "same-solver-second-run": "rerun"}.get(v, v)
+        if name.startswith("args"):
+            name = "args"
+        if name.startswith("reconf"):
+            name = "reconf"
         for _ in range(5):
             orc.one_problem(d["spec"], [name] if name != "serial" else [])
             if ctx.violations or ctx.known:
